@@ -81,6 +81,99 @@ fn open(bytes: &Rc<Vec<u8>>, init: &Option<Rc<Vec<u8>>>) -> Option<Mp4Reader<Mon
     }
 }
 
+fn prev_bad_then_successor(last_bad: Option<(u32, u32)>, last_ok: Option<(u32, u32)>, t: u32, s: u32) -> bool {
+    last_bad.is_some() && last_ok.map(|(lt, ls)| lt == t && ls.wrapping_add(1) == s).unwrap_or(false)
+}
+
+/// (d) A media segment's reader takes the movie header (ftyp, moov) from its parent and nothing
+/// else: the same segment bytes opened through parents with different histories - the reader
+/// of the initialisation segment, a reader that is itself a segment reader (walking segment
+/// after segment), a reader of a file holding header AND fragments, a parent that has already
+/// answered calls - must give equal structures and equal answers.
+fn parent_history_case(id: &str, name: &str, init: &Rc<Vec<u8>>, segment: &Rc<Vec<u8>>, whole: Option<&Rc<Vec<u8>>>, rep: &mut Report) {
+    rep.begin(id);
+    let open_init = || Mp4Reader::read_header(MonReader::plain(init.clone()), init.len() as u64).ok();
+    let seg = |p: &Mp4Reader<MonReader>| -> Option<Mp4Reader<MonReader>> {
+        match panicmon::catch(|| p.read_fragment_header(MonReader::plain(segment.clone()), segment.len() as u64)) {
+            Ok(Ok(r)) => Some(r),
+            _ => None,
+        }
+    };
+    let render = |r: &mut Mp4Reader<MonReader>| -> String {
+        let mut ids: Vec<u32> = r.tracks().keys().cloned().collect();
+        ids.sort();
+        let mut s = format!("moofs={:?}\n", r.moofs);
+        for t in ids {
+            let tr = &r.tracks()[&t];
+            s.push_str(&format!("t{} trafs={:?} moof_offsets={:?} dsd={}\n", t, tr.trafs, tr.moof_offsets, tr.default_sample_duration));
+        }
+        match panicmon::catch(|| crate::readcheck::full_transcript(r)) {
+            Ok(t) => s.push_str(&t),
+            Err(p) => s.push_str(&format!("PANIC {}: {}", p.site(), p.msg)),
+        }
+        s
+    };
+    let p0 = match open_init() {
+        Some(p) => p,
+        None => {
+            rep.add("subjects_not_openable", 1);
+            rep.end();
+            return;
+        }
+    };
+    let mut base = match seg(&p0) {
+        Some(r) => r,
+        None => {
+            rep.add("subjects_not_openable", 1);
+            rep.end();
+            return;
+        }
+    };
+    let want = render(&mut base);
+    let mut parents: Vec<(&str, Mp4Reader<MonReader>)> = Vec::new();
+    // a parent that is a segment reader itself; and one two links down the chain
+    if let Some(p1) = seg(&p0) {
+        if let Some(p2) = seg(&p1) {
+            parents.push(("segment reader of a segment reader", p2));
+        }
+        parents.push(("segment reader", p1));
+    }
+    // a parent that has answered calls (sample reads included) before
+    if let Some(mut p3) = seg(&p0) {
+        let _ = panicmon::catch(|| crate::readcheck::full_transcript(&mut p3));
+        parents.push(("segment reader that has been read from", p3));
+    }
+    // a parent opened on a file that holds the movie header and fragments
+    if let Some(w) = whole {
+        if let Ok(Ok(pw)) = panicmon::catch(|| Mp4Reader::read_header(MonReader::plain(w.clone()), w.len() as u64)) {
+            if pw.moov == p0.moov && pw.ftyp == p0.ftyp {
+                parents.push(("reader of a file with header and fragments", pw));
+            }
+        }
+    }
+    for (what, p) in parents.iter() {
+        rep.add("segment_opens_through_parents_with_history", 1);
+        rep.cover_nt(hash_str(&format!("parent|{}", what)));
+        match seg(p) {
+            Some(mut r) => {
+                let got = render(&mut r);
+                if got != want {
+                    let line = got.lines().zip(want.lines()).position(|(a, b)| a != b).unwrap_or(0);
+                    rep.fail("C15", id, "segment_reader_depends_on_parent_history", json!({"file": name, "parent": what, "first_differing_line": line,
+                        "through_this_parent": got.lines().nth(line).unwrap_or("").chars().take(300).collect::<String>(),
+                        "through_init_reader": want.lines().nth(line).unwrap_or("").chars().take(300).collect::<String>()}));
+                    break;
+                }
+            }
+            None => {
+                rep.fail("C15", id, "segment_reader_depends_on_parent_history", json!({"file": name, "parent": what, "through_this_parent": "does not open", "through_init_reader": "opens"}));
+                break;
+            }
+        }
+    }
+    rep.end();
+}
+
 fn reader_case(id: &str, name: &str, bytes: &Rc<Vec<u8>>, init: &Option<Rc<Vec<u8>>>, nsched: u64, rng: &mut Rng, rep: &mut Report) {
     rep.begin(id);
     let mut long_lived = match open(bytes, init) {
@@ -112,23 +205,51 @@ fn reader_case(id: &str, name: &str, bytes: &Rc<Vec<u8>>, init: &Option<Rc<Vec<u
     let mut fresh: HashMap<Call, String> = HashMap::new();
     let mut prev_kind = "start";
     let mut prev_ok = true;
+    // the last read that returned a sample / the last read that did not, and the last call
+    let mut last_ok: Option<(u32, u32)> = None;
+    let mut last_bad: Option<(u32, u32)> = None;
+    let mut last_call: Option<Call> = None;
     for step in 0..nsched {
-        let t = *rng.pick(&track_pool);
+        let mut t = *rng.pick(&track_pool);
         let n = counts.get(&t).cloned().unwrap_or(0);
-        let sid = match rng.below(8) {
+        let mut sid = match rng.below(8) {
             0 => 0,
             1 => n.wrapping_add(1),
             2 => n.wrapping_add(2 + rng.below(3) as u32),
             3 => u32::MAX - rng.below(2) as u32,
             _ => 1 + rng.below(n.max(1) as u64) as u32,
         };
-        let call = match rng.below(10) {
+        // half of the steps are placed relative to the recent past (a cache, a remembered
+        // position or a cursor would be keyed on exactly these): the successor / predecessor /
+        // repetition of the last successful read, the neighbours of the last failed one
+        let mode = rng.below(12);
+        let mut patterned = false;
+        match (mode, last_ok, last_bad) {
+            (0 | 1, Some((lt, ls)), _) => { t = lt; sid = ls.wrapping_add(1); patterned = true; }
+            (2, Some((lt, ls)), _) => { t = lt; sid = ls.wrapping_sub(1); patterned = true; }
+            (3, Some((lt, ls)), _) => { t = lt; sid = ls; patterned = true; }
+            (4, _, Some((lt, ls))) => { t = lt; sid = ls.wrapping_sub(1 + rng.below(2) as u32); patterned = true; }
+            (5, _, Some((lt, ls))) => { t = lt; sid = ls; patterned = true; }
+            _ => {}
+        }
+        let mut call = match rng.below(10) {
             0..=4 => Call::ReadSample(t, sid),
             5 | 6 => Call::SampleOffset(t, sid),
             7 => Call::SampleCount(t),
             8 => Call::TrackAccessors(t),
             _ => Call::MovieAccessors,
         };
+        if patterned && rng.chance(3, 4) {
+            call = Call::ReadSample(t, sid);
+        }
+        if mode == 6 {
+            if let Some(c) = last_call {
+                call = c;
+            }
+        }
+        if patterned {
+            rep.add("calls_placed_relative_to_recent_history", 1);
+        }
         let got = perform(&mut long_lived, call);
         let want = match fresh.get(&call) {
             Some(w) => w.clone(),
@@ -149,6 +270,17 @@ fn reader_case(id: &str, name: &str, bytes: &Rc<Vec<u8>>, init: &Option<Rc<Vec<u
         }
         prev_kind = call.kind();
         prev_ok = ok_now;
+        last_call = Some(call);
+        if let Call::ReadSample(ct, cs) = call {
+            if got.starts_with("some(") {
+                if prev_bad_then_successor(last_bad, last_ok, ct, cs) {
+                    rep.add("successor_of_last_good_read_right_after_failed_reads", 1);
+                }
+                last_ok = Some((ct, cs));
+            } else {
+                last_bad = Some((ct, cs));
+            }
+        }
     }
     rep.add("scheduled_calls", nsched);
     rep.add("distinct_calls_with_fresh_baseline", fresh.len() as u64);
@@ -185,7 +317,7 @@ pub fn run(args: &Args) -> i32 {
     let mut idx = 0u64;
     // ---- (a) + (c): reader schedules over valid files and over damaged ones (failing regions)
     let seeds = corpus(args.seed, false);
-    let reps = args.scale(2, 12);
+    let reps = args.scale(12, 120);
     for (si, s) in seeds.iter().enumerate() {
         for r in 0..reps {
             idx += 1;
@@ -216,8 +348,39 @@ pub fn run(args: &Args) -> i32 {
         }
         rep.note("files", &s.name);
     }
+    // ---- (d) segment readers do not depend on their parent's history
+    for (si, s) in seeds.iter().enumerate() {
+        if let Some(i) = &s.init {
+            idx += 1;
+            let id = format!("parent:{}", si);
+            if args.mine(idx) && args.want(&id) {
+                let mut whole = i.clone();
+                whole.extend_from_slice(&s.bytes);
+                parent_history_case(&id, &s.name, &Rc::new(i.clone()), &Rc::new(s.bytes.clone()), Some(&Rc::new(whole)), &mut rep);
+            }
+        }
+    }
+    let ng = args.scale(6_000, 120_000);
+    for g in 0..ng {
+        idx += 1;
+        if !args.mine(idx) {
+            continue;
+        }
+        let id = format!("parentgen:{}", g);
+        if !args.want(&id) {
+            continue;
+        }
+        let mut rng = Rng::derive(args.seed, 0x15D, g);
+        let same_trex = rng.bool();
+        let fm = crate::model::gen_frag_movie(&mut rng, 3, 2, 3, same_trex);
+        let b = crate::model::build_fragmented(&fm);
+        parent_history_case(&id, "generated fragmented movie", &Rc::new(b.init.clone()), &Rc::new(b.segment.clone()), Some(&Rc::new(b.whole.bytes.clone())), &mut rep);
+        if rep.too_many_fails() {
+            return rep.finish();
+        }
+    }
     // ---- (b) mux determinism: twice in this process, and once more in a separate process
-    let nh = args.scale(400, 4000);
+    let nh = args.scale(48_000, 800_000);
     let per = nh / args.nshards;
     let lo = per * args.shard;
     let hi = lo + per;
@@ -250,11 +413,12 @@ pub fn run(args: &Args) -> i32 {
                     Ok(o) if o.status.success() => {
                         let text = String::from_utf8_lossy(&o.stdout).to_string();
                         let mut seen = 0u64;
+                        let mine_map: std::collections::HashMap<u64, Option<u64>> = mine.iter().cloned().collect();
                         for line in text.lines() {
                             let mut it = line.splitn(2, ' ');
                             let i: u64 = it.next().and_then(|x| x.parse().ok()).unwrap_or(u64::MAX);
                             let hs = it.next().unwrap_or("");
-                            if let Some((_, a)) = mine.iter().find(|(k, _)| *k == i) {
+                            if let Some(a) = mine_map.get(&i) {
                                 seen += 1;
                                 if format!("{:?}", a) != hs {
                                     rep.fail("C15", &format!("mux:{}", i), "mux_in_separate_process_differs", json!({"history": history_for(args.seed, i).short(), "this_process": format!("{:?}", a), "other_process": hs}));
